@@ -31,6 +31,30 @@ prop("C20", True, "model_checking",
      "Trusted: the eager reference (closed forms); 1e-9 relative tolerance on times, exact cut-off where arithmetic is exact; parameters outside the menus.",
      "DESIGN.md 3/C20", E2)
 
+prop("C16", True, "model_checking",
+     "exhaustive integer-grid enumeration of control-point lists x type layouts x requested lengths x modes on the real Curve::new",
+     "Every control-point list of the stated grid families (1-5 points, every type layout, several scales/origins) is computed at natural length and at every length of a boundary menu (tiny, inside, exactly natural +-1e-9, beyond, huge, exactly at vertices); total distance, exception rule, prefix/ray geometry and cumulative-length invariants are checked on every curve.",
+     "Trusted: the oracle's reading of the statement (exception rule, 1e-3 x magnitude end-point tolerance); coordinates outside the grids.",
+     "DESIGN.md 3/C16", E1)
+
+prop("C17", True, "model_checking",
+     "exhaustive integer-grid enumeration per segment type against exact curves evaluated in f64 (symmetric Hausdorff distance)",
+     "Every three-point arc, bezier (2-6 points), Catmull (2-4 points), linear and two-segment combination of the stated grids x scales is computed by the real code and compared with the exact curve; fallbacks, segment ends and joint de-duplication are checked on every shape.",
+     "Trusted: f64 reference curves and the bounds derived from the tolerance constants (bezier 0.25, arc 0.4, Catmull sampling bound, +6 px in osu mode) plus f32 slack.",
+     "DESIGN.md 3/C17", E1)
+
+prop("C18", True, "model_checking",
+     "explicit-state BFS (stateright) over histories of curve computations and SliderPath mutations sharing one buffer set; differential oracle vs fresh buffers",
+     "All operation sequences up to the completed depth over {owned/borrowed computation of each pool entry x length, three cached getters, push/pop/overwrite, set length, clear cache}; every curve returned must be bit-identical to a computation with fresh buffers for the current inputs.",
+     "Trusted: Debug snapshots as complete state keys; the pool of seven control-point lists and three lengths.",
+     "DESIGN.md 3/C18", E2)
+
+prop("C19", True, "model_checking",
+     "exhaustive enumeration of the C16 curve families x progress menu (incl. every exact vertex fraction) on the real position functions",
+     "For every natural and length-adjusted curve of the families (incl. non-positive requested lengths) every progress value of the menu is evaluated: end points, clamping, progress-to-distance identity, Lipschitz bound between consecutive progress values, vertex hits, index search and interpolation against a linear scan, owned vs borrowed view.",
+     "Trusted: tolerance 1e-3 x control magnitude + 2e-6 x path magnitude for position equalities (DESIGN section 7).",
+     "DESIGN.md 3/C19", E1)
+
 NOT_BUILT_REASON = "check not built yet in this session (planned, see DESIGN.md section 3); not claimed until it exists"
 
 def main():
